@@ -27,7 +27,13 @@ func externalCallees(p *load.Prog, f *ssa.Function) map[string][]string {
 						if pk == nil && cal.Origin() != nil {
 							pk = cal.Origin().Pkg
 						}
-						if pk != nil {
+						isPool := false
+						if rcv := cal.Signature.Recv(); rcv != nil && strings.HasSuffix(rcv.Type().String(), "sync.Pool") {
+							// an object pool: safe for concurrent use; that recycled objects do not influence results is
+							// decided by the functional properties (a pooled hash state is unknown until reset)
+							isPool = true
+						}
+						if pk != nil && !isPool {
 							pkgs = append(pkgs, pk.Pkg.Path())
 						}
 					}
